@@ -1,5 +1,8 @@
-(* C19 specification: which public methods of the exact builtin types list, dict, set and
-   collections.deque modify the object they are called on.
+(* C19 specification: which public methods - and which operator / protocol methods (dunder names:
+   item assignment and deletion, the in-place operators, __init__, which re-initialises the object) -
+   of the exact builtin types list, dict, set and collections.deque modify the object they are called on.
+   The dunder names matter for stored references only (method-wrapper objects in the render data);
+   attribute access to any underscore name is refused anyway (C19_private_blocked).
 
    Written by hand from the Python library reference ("Mutable Sequence Types", "list.sort",
    "Mapping Types — dict", "Set Types — set, frozenset" (the table of operations available for
@@ -13,18 +16,22 @@ From JV Require Import Model.SbxAttr Model.SbxMutable.
 Open Scope string_scope.
 
 Definition list_mutators : list string :=
-  ["append"; "clear"; "extend"; "insert"; "pop"; "remove"; "reverse"; "sort"].
+  ["append"; "clear"; "extend"; "insert"; "pop"; "remove"; "reverse"; "sort";
+   "__setitem__"; "__delitem__"; "__iadd__"; "__imul__"; "__init__"].
 
 Definition dict_mutators : list string :=
-  ["clear"; "pop"; "popitem"; "setdefault"; "update"].
+  ["clear"; "pop"; "popitem"; "setdefault"; "update";
+   "__setitem__"; "__delitem__"; "__ior__"; "__init__"].
 
 Definition set_mutators : list string :=
   ["add"; "clear"; "difference_update"; "discard"; "intersection_update"; "pop"; "remove";
-   "symmetric_difference_update"; "update"].
+   "symmetric_difference_update"; "update";
+   "__ior__"; "__iand__"; "__isub__"; "__ixor__"; "__init__"].
 
 Definition deque_mutators : list string :=
   ["append"; "appendleft"; "clear"; "extend"; "extendleft"; "insert"; "pop"; "popleft";
-   "remove"; "reverse"; "rotate"].
+   "remove"; "reverse"; "rotate";
+   "__setitem__"; "__delitem__"; "__iadd__"; "__imul__"; "__init__"].
 
 Definition mutators (T : btype) : list string :=
   match T with
